@@ -6,3 +6,4 @@ import UflVerif.Props.C20
 import UflVerif.Props.C24
 import UflVerif.Props.C25
 import UflVerif.Props.C26
+import UflVerif.Props.C29
